@@ -1,4 +1,116 @@
-import EE.Model.Program
+import EE.Props.C14
+import EE.Lemmas.Triple
+/-! # C15 — a failing or panicking handler is contained
+
+A handler's failure (`err`) or panic (`panic`) is an outcome of `inv`; the evaluator's `bind'`
+passes any non-`ok` outcome straight to the caller without running the continuation. Unwinding
+through a live guard would poison the mutex (`holdingCtx` / `holdingRegs` model exactly that);
+the faithful evaluator never holds a guard across a handler call, so nothing is poisoned. -/
 namespace EE.Props.C15
-theorem placeholder : True := trivial
+open EE EngineM EE.Props.C14
+
+variable {σ : Type}
+
+/-- After *any* evaluation from a clean world — successful, failed or unwound by a panic, with
+handlers failing or panicking at any invocation — no engine lock is held or poisoned. -/
+theorem no_lock_left (inv : Inv σ) (hinv : HandlersClean inv) (t : AST) (w : World σ) (hw : w.Clean) :
+    (exec inv t w).2.Clean := (exec_never_deadlocks inv hinv t w hw).2
+
+/-- Later use of the same context and of the registries therefore behaves exactly as on the
+world the failed evaluation stopped in: every accessor succeeds and reads that world's map. -/
+theorem later_use_normal (inv : Inv σ) (hinv : HandlersClean inv) (t : AST) (w : World σ) (hw : w.Clean) (n : Name) :
+    let w' := (exec inv t w).2
+    ctxGet n w' = (.ok (alookup n w'.ctx), w') ∧ readRegs w' = (.ok w'.regs, w') ∧
+    ∀ t', (exec inv t' w').2.Clean := by
+  intro w'
+  have hc := no_lock_left inv hinv t w hw
+  exact ⟨ctxGet_clean hc, readRegs_clean hc, fun t' => no_lock_left inv hinv t' w' hc⟩
+
+/-- A non-`ok` outcome of the first part of a sequenced computation is the outcome of the whole,
+in the world where it happened: the continuation (everything to the right) does not run. This is
+the one mechanism by which every evaluator branch propagates failures. -/
+theorem failure_stops {α β : Type} (m : EngineM σ α) (f : α → EngineM σ β) (w w' : World σ) (r : Res α)
+    (h : m w = (r, w')) (hr : r.isOk = false) :
+    (bind' m f w).2 = w' ∧ (bind' m f w).1.isOk = false ∧
+    (bind' m f w).1.isErr = r.isErr ∧ (bind' m f w).1.isPanic = r.isPanic := by
+  obtain ⟨r', hb, h1, h2, h3, _⟩ := bind'_notok (f := f) h hr
+  rw [hb]; exact ⟨rfl, h1, h2, h3⟩
+
+/-- Handlers that return or fail on their own account without touching the engine's trace or
+locks (they may still change the context map and their own state). -/
+def Quiet (inv : Inv σ) : Prop :=
+  ∀ h args w, w.Clean → (inv h args w).2.Clean ∧ (inv h args w).2.trace = w.trace ∧ (inv h args w).1.isHang = false
+
+/-- The handler semantics `inv` with a fault injected: the invocation number `n` of the
+evaluation (0-based; the trace holds one event per invocation so far) yields the outcome `r`
+instead, and **any later invocation** yields the marker outcome `hang`. -/
+def faultAt (inv : Inv σ) (n : Nat) (r : Res Value) : Inv σ := fun h args w =>
+  if w.trace.length = n + 1 then (r, w)
+  else if w.trace.length > n + 1 then (.hang, w)
+  else inv h args w
+
+/-- **Err or panic injected at the n-th handler invocation, any program, any handler kind.**
+Started with fewer than `n+1` invocations on the trace, the evaluation either never reaches
+invocation `n` (at most `n` invocations happened in total), or it fails with exactly the injected
+outcome's class (an `Err` for an `Err`, an unwind for a panic) after **exactly** `n+1`
+invocations: no further handler is invoked. The marker outcome never surfaces, and in every case
+no engine lock is left held or poisoned. -/
+theorem fault_injection (inv : Inv σ) (hq : Quiet inv) (n : Nat) (r : Res Value) (hr : r.isOk = false) (hrh : r.isHang = false)
+    (t : AST) (w : World σ) (hw : w.Clean) (hlen : w.trace.length ≤ n) :
+    let out := exec (faultAt inv n r) t w
+    out.1.isHang = false ∧ out.2.Clean ∧
+    (out.2.trace.length ≤ n ∨
+      (out.2.trace.length = n + 1 ∧ out.1.isOk = false ∧ out.1.fault = r.fault)) := by
+  let I : World σ → Prop := fun w => w.Clean ∧ w.trace.length ≤ n
+  let F : Fault → World σ → Prop := fun f w' => f ≠ .hang ∧ w'.Clean ∧ (w'.trace.length ≤ n ∨ (w'.trace.length = n + 1 ∧ f = r.fault))
+  have hA : ∀ w, I w → F .none w := fun w h => ⟨by simp, h.1, Or.inl h.2⟩
+  have hI : Stable0 I := ⟨fun _ h => h.1, fun _ _ h => h⟩
+  have hrf : r.fault ≠ .hang := by cases r <;> simp_all [Res.fault, Res.isHang]
+  have hinvoke : ∀ h args, Triple I F (invoke (faultAt inv n r) h args) := by
+    intro h args w0 ⟨hc, hl⟩
+    simp only [invoke, faultAt, List.length_append, List.length_singleton]
+    by_cases h1 : w0.trace.length + 1 = n + 1
+    · simp only [h1, if_true]
+      refine ⟨fun a w' e => ?_, fun r' w' e _ => ?_⟩
+      · simp at e; obtain ⟨rfl, _⟩ := e; simp [Res.isOk] at hr
+      · simp at e; obtain ⟨rfl, rfl⟩ := e
+        exact ⟨hrf, hc, Or.inr ⟨by simp; omega, rfl⟩⟩
+    · have h2 : ¬ (w0.trace.length + 1 > n + 1) := by omega
+      simp only [h1, h2, if_false]
+      have hc' : ({ w0 with trace := w0.trace ++ [Event.call h args] } : World σ).Clean := hc
+      obtain ⟨q1, q2, q3⟩ := hq h args _ hc'
+      refine ⟨fun a w' e => ?_, fun r' w' e _ => ?_⟩
+      · rw [e] at q1 q2; exact ⟨q1, by rw [q2]; simp; omega⟩
+      · rw [e] at q1 q2 q3
+        refine ⟨by cases r' <;> simp_all [Res.fault, Res.isHang], q1, Or.inl (by rw [q2]; simp; omega)⟩
+  have main := Triple.exec hA hI hinvoke t w ⟨hw, hlen⟩
+  intro out
+  cases hout : exec (faultAt inv n r) t w with
+  | mk res w' =>
+    have ho : out = (res, w') := hout
+    rw [ho]
+    cases hok : res.isOk with
+    | true =>
+      cases res <;> simp [Res.isOk] at hok
+      rename_i a
+      have := main.1 a w' hout
+      exact ⟨rfl, this.1, Or.inl this.2⟩
+    | false =>
+      have := main.2 res w' hout hok
+      refine ⟨by cases res <;> simp_all [Res.fault, Res.isHang, F], this.2.1, ?_⟩
+      rcases this.2.2 with h | ⟨h1, h2⟩
+      · exact Or.inl h
+      · exact Or.inr ⟨h1, rfl, h2⟩
+
+/-! Non-vacuity: a panicking context function reached through the bare name poisons the context
+in the pre-repair shape, and does not in the faithful evaluator. -/
+def panicInv : Inv Unit := fun _ _ w => (.panic, w)
+
+example : (ctxValueUnderLock panicInv ['f'] w0).2.ctxPoisoned = true := by rfl
+example : (ctxValue panicInv ['f'] w0).2.ctxPoisoned = false := by rfl
+example : (ctxValue panicInv ['f'] w0).1.isPanic = true := by rfl
+example : HandlersClean panicInv := fun _ _ w hw => ⟨hw, by simp [panicInv, NoDeadlock, Res.fault]⟩
+/-- after the panic, the context is still usable -/
+example : (ctxGet ['f'] (exec panicInv (.ref ['f']) w0).2).1.isOk = true := by rfl
+
 end EE.Props.C15
